@@ -2,7 +2,8 @@
    length restrictions along typedef chains: theorem statements only.
    Model: Restrict.v (lys_compile_type_range, range_part_minmax, range_part_check_value_syntax,
    range_part_check_ascendancy of src/schema_compile_node.c and the hand-down of the compiled restriction in
-   lys_compile_type; lyplg_type_validate_range is TypesMisc.validate_range); proofs: RestrictP.v.
+   lys_compile_type; lyplg_type_validate_range is TypesMisc.validate_range), as of /repo commits 72878af and b6c3725;
+   proofs: RestrictP.v.
    Vocabulary (Restrict.v): a restriction text of the grammar [range_text ty ps text] is a list ps of parts
    (boundary, optional second boundary; a boundary is min, max or a number) written as RFC 7950 range-arg / length-arg
    with any white space around the tokens (numbers: optional sign, digits, for decimal64 optionally a period and at
@@ -44,64 +45,72 @@ Theorem C11_range_chain_intersection :
 Proof. exact range_chain_intersection. Qed.
 Print Assumptions C11_range_chain_intersection.
 
-(* C11_range_rejects_widening: a restriction of the grammar with a part that is not inside a part of the base
-   restriction does not compile *)
+(* C11_range_rejects_widening, now for ANY argument text (in the grammar or not): whatever compiles under a restricted
+   base has every part inside one part of the base, so its value set is a subset of the value set of the base.
+   (Before commit 72878af this was refuted by the range 1 50 under 1..10.) *)
 Theorem C11_range_rejects_widening :
-  forall ty base ps text,
-    range_text ty ps text -> parts_sorted base -> base <> [] -> ~ touching_max ty base ps ->
-    ~ parts_inside (resolve ty base ps) base -> exists e, compile_range ty base text = Err e.
-Proof. exact range_rejects_widening. Qed.
+  forall ty base text r,
+    base <> [] -> compile_range ty base text = Ok r -> parts_inside r base /\ subset r base.
+Proof. exact range_no_widening. Qed.
 Print Assumptions C11_range_rejects_widening.
 
-(* C11_range_validate_agrees: on the compiled parts, lyplg_type_validate_range accepts exactly the values of the
-   value set *)
+(* along ANY chain of typedefs that compiles (any texts), a value accepted by the last type is accepted by the
+   restriction the chain started from: a derived type is never wider than any of its ancestors *)
+Theorem C11_range_chain_never_widens :
+  forall ty rs base eff,
+    compile_chain ty base rs = Ok eff -> forall v, denote eff v -> denote base v.
+Proof. exact chain_never_widens. Qed.
+Print Assumptions C11_range_chain_never_widens.
+
+(* for ANY text that compiles: the parts are non-empty intervals in ascending order (consecutive parts may touch, as in
+   127 | max, see C11_range_rejects_illformed_refuted) and there is at least one *)
+Theorem C11_range_compiled_ascending :
+  forall ty base text r, compile_range ty base text = Ok r -> wsorted r /\ r <> [].
+Proof. exact compile_range_wsorted. Qed.
+Print Assumptions C11_range_compiled_ascending.
+
+(* C11_range_validate_agrees, now for ANY text that compiles: lyplg_type_validate_range accepts exactly the values of the
+   value set of the compiled parts. (Before commit 72878af this was refuted by the range 5 1.) *)
 Theorem C11_range_validate_agrees :
-  forall ty base ps text r' v,
-    range_text ty ps text -> parts_sorted base -> ~ touching_max ty base ps ->
-    compile_range ty base text = Ok r' -> (validate_range r' v = true <-> in_parts r' v).
-Proof. exact range_validate_agrees. Qed.
+  forall ty base text r v,
+    compile_range ty base text = Ok r -> (validate_range r v = true <-> in_parts r v).
+Proof. exact range_validate_agrees_any. Qed.
 Print Assumptions C11_range_validate_agrees.
 
-(* for ANY argument text (in the grammar or not): the loop never runs out of the fuel the model gives it, and every
-   stored part lies within the limits of the built-in type with lower <= upper bound. (What does NOT hold for
-   arbitrary texts is refuted next.) *)
+(* C11_range_no_overread: for ANY text and base, the check against the base never indexes parts[] beyond the array
+   (the model's distinguished answer for that, E_OOB, is unreachable: the parser ends with parts_done = number of
+   parts). Before commit b6c3725 this was refuted by the range 1|| under 1..3 | 5. *)
+Theorem C11_range_no_overread : forall ty base text, compile_range ty base text <> Err E_OOB.
+Proof. exact compile_range_never_oob. Qed.
+Print Assumptions C11_range_no_overread.
+
+(* for ANY argument text: the loop never runs out of the fuel the model gives it, and every stored part lies within the
+   limits of the built-in type with lower <= upper bound *)
 Theorem C11_range_total : forall ty base text, compile_range ty base text <> Err E_FUEL.
 Proof. exact compile_range_never_fuel. Qed.
 Print Assumptions C11_range_total.
 
-Theorem C11_range_parts_in_type_partial :
+Theorem C11_range_parts_in_type :
   forall ty base text r,
     Forall (part_ok ty) base -> compile_range ty base text = Ok r -> Forall (part_ok ty) r /\ r <> [].
 Proof. exact compile_range_parts_ok. Qed.
-Print Assumptions C11_range_parts_in_type_partial.
+Print Assumptions C11_range_parts_in_type.
 
-(* ---------- refuted at full strength (the model follows the code; each witness behaves the same on the library) ---------- *)
+(* regression: the witnesses of the statements that were refuted up to round 2 (1 50 under 1..10, 5 1, 1|| with and
+   without a base, min5, 5max) are rejected now *)
+Example C11_range_former_witnesses :
+  compile_range (RInt U8) [(1, 10)%Z] [49; 32; 53; 48] = Err E_VALID /\
+  compile_range (RInt U8) [] [53; 32; 49] = Err E_VALID /\
+  compile_range (RInt U8) [(1, 3); (5, 5)]%Z [49; 124; 124] = Err E_VALID /\
+  compile_range (RInt U8) [] [49; 124; 124] = Err E_VALID /\
+  compile_range (RInt U8) [] [109; 105; 110; 53] = Err E_VALID /\
+  compile_range (RInt U8) [] [53; 109; 97; 120] = Err E_VALID.
+Proof. exact former_witnesses_rejected. Qed.
 
-(* a derived restriction can WIDEN its base: uint8 range 1 50 (no bar between the numbers: not in the grammar) under
-   a base 1..10 compiles to the parts 1 and 50, so the derived type accepts 50 which its base type rejects *)
-Theorem C11_range_rejects_widening_refuted :
-  exists r', compile_range (RInt U8) [(1, 10)%Z] [49; 32; 53; 48] = Ok r' /\
-             in_parts r' 50 /\ ~ in_parts [(1, 10)%Z] 50.
-Proof. exact juxtaposed_widens. Qed.
-Print Assumptions C11_range_rejects_widening_refuted.
+(* ---------- still refuted at full strength (the model follows the code; each witness behaves the same on the library) ---------- *)
 
-(* compiled parts need not be ascending (uint8 range 5 1), and then validate_range rejects a listed value *)
-Theorem C11_range_validate_agrees_refuted :
-  exists r', compile_range (RInt U8) [] [53; 32; 49] = Ok r' /\ ~ parts_sorted r' /\
-             in_parts r' 1 /\ validate_range r' 1 = false.
-Proof. exact juxtaposed_unsorted. Qed.
-Print Assumptions C11_range_validate_agrees_refuted.
-
-(* memory safety: uint8 range 1|| under a base 1..3 | 5 makes the check against the base read parts[] beyond its
-   end (E_OOB: the C code has undefined behaviour here; ASan reports heap-buffer-overflow in lys_compile_type_range);
-   without a base the same text is accepted as the part 1 *)
-Theorem C11_range_no_overread_refuted :
-  compile_range (RInt U8) [(1, 3); (5, 5)]%Z [49; 124; 124] = Err E_OOB /\
-  compile_range (RInt U8) [] [49; 124; 124] = Ok [(1, 1)%Z].
-Proof. exact double_bar_overread. Qed.
-Print Assumptions C11_range_no_overread_refuted.
-
-(* texts outside the grammar that compile: 1..9..3 (= 1..3), 127 | max for int8 (two equal parts), the decimal64
+(* texts outside the grammar (or with overlapping parts) that still compile: 1..9..3 (= 1..3), 127 | max for int8 (two
+   equal parts), the decimal64
    boundary - (= 0), +5, 05, -0 for uint8, -.5 for decimal64 *)
 Theorem C11_range_rejects_illformed_refuted :
   compile_range (RInt U8) [] [49; 46; 46; 57; 46; 46; 51] = Ok [(1, 3)%Z] /\
